@@ -729,3 +729,86 @@ def ob_effect_position(r, tier, seed):
 _c09_obl = obligations
 def obligations():
     return _c09_obl() + [Ob('O9.5-effect-position', 'an effectful C-expression used only for its effect is emitted as a statement', ob_effect_position, ('quick', 'thorough'), 1, {})]
+
+# ----------------------------------------------------------------------------- O9.6 the field initialisers of a struct literal are evaluated in the order written
+def ob_struct_literal_order(r, tier, seed):
+    import itertools
+    W = e2.fresh_world(CRATES + ('parser',) if 'parser' not in CRATES else CRATES); tt = W.tt
+    TY = tt.find_adt(['tast', 'Ty'], 'compiler'); TE = tt.find_adt(['tast', 'Expr'], 'compiler'); TP = tt.find_adt(['tast', 'Pat'], 'compiler'); PRm = tt.find_adt(['common', 'Prim'], 'compiler')
+    HE = [a for a in tt.by_name['Expr'] if a.crate == 'compiler' and 'hir' in '::'.join(a.path)][0]
+    SLE = [a for a in tt.by_name['StructLitElab'] if a.crate == 'compiler'][0]; SLA = [a for a in tt.by_name['StructLitArgElab'] if a.crate == 'compiler'][0]
+    CO = tt.find_adt(['common', 'Constructor'], 'compiler'); SC = tt.find_adt(['common', 'StructConstructor'], 'compiler'); TI = tt.find_adt(['tast', 'TastIdent'], 'compiler')
+    QP = tt.find_adt(['hir', 'QualifiedPath'], 'compiler'); HPATH = [a for a in tt.by_name['Path'] if a.crate == 'compiler' and 'hir' in '::'.join(a.path)][0]; HID = tt.find_adt(['hir', 'HirIdent'], 'compiler')
+    fields = ['x', 'y', 'z']
+    r.bounds = 'struct P { x, y, z: int32 } and the literal `P { .. }` with the three fields written in each of the 6 orders, initialisers (1,), (2,), (3,) in writing order (tuple expressions: initialisers that are names or literals may be reordered freely); typer::tast_builder::build_expr'
+    r.assumptions = ['HirTable::expr / TypeckResults::{struct_lit_elab, expr_ty} return the chosen expressions and the elaboration the typer records (arguments in declaration order)',
+                     'oracle: in the typed tree the initialisers are evaluated in the order they were written (constructor arguments are evaluated left to right - O9.3 - so either they appear in writing order or they are bound to temporaries in writing order first)']
+    cur = {}
+    def by_id(store):
+        def f(ex, a):
+            eid = a[1]
+            while isinstance(eid, Agg): eid = eid.fields[-1]
+            return store(eid)
+        return f
+    for nm in list(W.methods.get('expr', [])):
+        if nm[2] is not None and nm[2].self_key == 'HirTable': W.stubs[nm[1]] = by_id(lambda i: Ref(cur['exprs'], i))
+    for nm in list(W.methods.get('struct_lit_elab', [])):
+        if nm[2] is not None and nm[2].self_key == 'TypeckResults': W.stubs[nm[1]] = by_id(lambda i: ms.some(Ref(cur, 'elab')) if i == 0 else ms.NONE())
+    for nm in list(W.methods.get('expr_ty', [])):
+        if nm[2] is not None and nm[2].self_key == 'TypeckResults': W.stubs[nm[1]] = by_id(lambda i: ms.some(Ref(cur, 'pty' if i == 0 else 'i32')))
+    for nm in list(W.methods.get('coercions', [])):
+        if nm[2] is not None and nm[2].self_key == 'TypeckResults': W.stubs[nm[1]] = lambda ex, a: PyVec([])
+    eid = lambda i: Agg('ExprId', 0, [Agg('PackageId', 0, [1]), i])
+    def entry(ex):
+        order = ex.choose([(True, o) for o in itertools.permutations(fields)])
+        cur['i32'] = Agg(TY.key, TY.vindex('TInt32'), []); cur['pty'] = Agg(TY.key, TY.vindex('TStruct'), [mkstr('P')])
+        qp = Agg(QP.key, 0, [ms.NONE(), Agg(HPATH.key, 0, [PyVec([])])]); hid = lambda n: Agg(HID.key, HID.vindex('Name'), [mkstr(n)])
+        exprs = {0: Agg(HE.key, HE.vindex('EStructLiteral'), [qp, PyVec([Agg('tuple', 0, [hid(n), eid(i + 1)]) for i, n in enumerate(order)])])}
+        for i, n in enumerate(order):
+            # the i-th written initialiser is the (non-trivial) tuple expression `(i+1,)`: names and literals may be reordered freely
+            exprs[i + 1] = Agg(HE.key, HE.vindex('ETuple'), [PyVec([eid(10 + i + 1)])]); exprs[10 + i + 1] = Agg(HE.key, HE.vindex('EInt'), [mkstr(str(i + 1))])
+        cur['exprs'] = exprs
+        con = Agg(CO.key, CO.vindex('Struct'), [Agg(SC.key, 0, [Agg(TI.key, 0, [mkstr('P')])])])
+        cur['elab'] = Agg(SLE.key, 0, [con, PyVec([Agg(SLA.key, SLA.vindex('Expr'), [eid(order.index(f_) + 1)]) for f_ in fields])])
+        h = {0: Opaque('hir_table'), 1: Opaque('results')}
+        out = ex.call('typer::tast_builder::build_expr', [Ref(h, 0), Ref(h, 1), eid(0)])
+        # evaluation order of the literals in the typed tree
+        seq = []; env = {}
+        def val(e):
+            e = unbox(e) if isinstance(e, Agg) and e.ty == 'Box' else e
+            n = TE.variants[e.idx].name; f = dict(zip([x[0] for x in TE.variants[e.idx].fields], e.fields))
+            if n == 'EPrim': seq.append(int(f['value'].fields[0])); return
+            if n == 'EVar': return
+            if n == 'ETuple':
+                for a_ in f['items'].items: val(a_)
+                return
+            if n == 'EConstr':
+                for a_ in f['args'].items: val(a_)
+                return
+            if n == 'EBlock':
+                for x in f['exprs'].items: val(x)
+                return
+            if n == 'ELet': val(f['value']); return
+            raise Unsupported('evaluation order of tast::Expr::' + n)
+        val(out)
+        return order, seq
+    res = e2.explore(r, W, entry, [])
+    for p in res:
+        r.cases += 1
+        if p.kind != 'ok':
+            if not any(f.key == 'panic' for f in r.findings): r.findings.append(Finding('panic', 'build_expr panics: %s' % p.value, {}, False, 'not replayed'))
+            continue
+        order, seq = p.value; r.nontrivial += 1
+        if seq != [1, 2, 3]:
+            if r.findings: continue
+            src = 'struct P { x: int32, y: int32 }\nfn f(s: string, n: int32) -> int32 { let _ = string_println(s); n }\nfn main() -> unit { let p = P { y: f("first", 1), x: f("second", 2) }; string_println(int32_to_string(p.x + p.y)) }\n'
+            go = compile_program(src); body = go[go.find('func main0'):].split('func main()')[0]
+            a_, b_ = body.find('"first"'), body.find('"second"')
+            ok_ = a_ != -1 and b_ != -1 and b_ < a_
+            r.findings.append(Finding('struct-literal-fields-reordered', 'the literal `P { %s }` evaluates its initialisers in the order %s of writing positions (declaration order of the fields, not the order written)' % (', '.join('%s: %d' % (n, i + 1) for i, n in enumerate(order)), seq), {'order': list(order), 'evaluated': seq}, ok_,
+                                      'goml `P { y: f("first", 1), x: f("second", 2) }`: in the emitted main0 the call with "second" comes %s the call with "first"' % ('before' if ok_ else 'after')))
+        elif len(r.samples) < 3: r.samples.append({'written': list(order), 'evaluated': seq})
+
+_c09_obl2 = obligations
+def obligations():
+    return _c09_obl2() + [Ob('O9.6-struct-literal-order', 'field initialisers of a struct literal are evaluated in the order written', ob_struct_literal_order, ('quick', 'thorough'), 1, {})]
